@@ -1,10 +1,12 @@
 /-
   Driver handler for C10 (not part of the model; no theorem mentions it).
   kind `hist`: the pure parse tables of one file (computed by the harness from a FRESH object) and an operation
-  list; runs `Model.C10.step` over the list and returns every answer and the abstract cache state after every step.
+  list; runs `Model.C10.xstep` (the base step inside the cache layer: abbreviation tables, line programs, CFI
+  entries) over the list and returns every answer and the abstract cache state after every step.
 -/
 import PyElf.Driver.Json
 import PyElf.Model.History
+import PyElf.Model.HistoryCaches
 open Lean
 namespace PyElf.Driver.C10
 open PyElf PyElf.Model.Lookup PyElf.Model.C10
@@ -90,6 +92,7 @@ def parseKind (k : Json) (args : Json) : Except String IterKind := do
   | .str "cus", _ => return .cus
   | .str "dies", .arr #[c] => return .dies (← jNatOf c)
   | .str "children", .arr #[c, o] => return .children (← jNatOf c) (← jNatOf o)
+  | .str "siblings", .arr #[c, o] => return .siblings (← jNatOf c) (← jNatOf o)
   | _, _ => .error "bad iterator kind"
 
 def parseOp (j : Json) : Except String Op := do
@@ -142,20 +145,151 @@ def stateJson (st : State) : Json :=
     ("line", Json.arr ((st.line.foldr insertSorted []).map fun (k, b) => Json.arr #[jN k, Json.bool b]).toArray),
     ("pos", jN st.pos)]
 
+/-! ### the cache layer: tables -/
+
+def natPairs (j : Json) (k : String) : Except String (List (Nat × Nat)) :=
+  match j.getObjVal? k with
+  | .ok (.arr a) => a.toList.mapM fun x =>
+      match x with
+      | .arr #[p, q] => do return (← jNatOf p, ← jNatOf q)
+      | _ => .error s!"bad pair in {k}"
+  | _ => pure []
+
+def natRows (j : Json) (k : String) : Except String (List (List Int)) :=
+  match j.getObjVal? k with
+  | .ok (.arr a) => a.toList.mapM fun x =>
+      match x with
+      | .arr r => r.toList.mapM jIntOf
+      | _ => .error s!"bad row in {k}"
+  | _ => pure []
+
+def lookup2 (l : List (Nat × Nat)) (k : Nat) : Option Nat := (l.find? (·.1 == k)).map (·.2)
+
+structure CfiTab where
+  size : Nat
+  /-- [off, kind (0 zero, 1 cie, 2 fde), a, b, c]: zero: a = endPos; cie: skip, endPos, payload; fde: a = ptr -/
+  heads : List (List Int)
+  /-- [off, t1, t2, skip, endPos, payload] -/
+  fdes : List (List Int)
+
+def parseCfiTab (j : Json) (k : String) : Except String CfiTab :=
+  match j.getObjVal? k with
+  | .ok o => do return ⟨(jNat o "size").toOption.getD 0, ← natRows o "heads", ← natRows o "fdes"⟩
+  | _ => pure ⟨0, [], []⟩
+
+def cfiHeadOf (t : CfiTab) (off : Int) : R CHead :=
+  match t.heads.find? (fun r => r.head? == some off) with
+  | some [_, 0, a, _, _] => .ok (.zero a.toNat)
+  | some [_, 1, a, b, c] => .ok (.cie ⟨a.toNat, b.toNat, c.toNat⟩)
+  | some [_, 2, a, _, _] => .ok (.fde a)
+  | _ => .error .elfParseError
+
+def cfiFdeOf (t : CfiTab) (off : Int) (t1 t2 : Nat) : R CRaw :=
+  match t.fdes.find? (fun r => r.take 3 == [off, (t1 : Int), (t2 : Int)]) with
+  | some [_, _, _, a, b, c] => .ok ⟨a.toNat, b.toNat, c.toNat⟩
+  | _ => .error .elfParseError
+
+def mkXFile (F : File) (us : List URow) (x : Json) : Except String XFile := do
+  let cuAb ← natPairs x "cu_abbrev"          -- unit offset ↦ debug_abbrev_offset
+  let tabs ← natPairs x "abbrev_tables"      -- offset ↦ table payload (offsets that parse)
+  let abSize := (jNat x "abbrev_size").toOption.getD 0
+  let keys ← natPairs x "lp_keys"            -- unit offset ↦ structs key
+  let lpP ← natRows x "lp_parse"             -- [key, o, hdr]
+  let lpD ← natRows x "lp_decode"            -- [key, o, entries, hdr afterwards]
+  let cd ← parseCfiTab x "cfi_d"
+  let ce ← parseCfiTab x "cfi_e"
+  let abOff := fun cu => (lookup2 cuAb cu).getD 0
+  let parseAb : Nat → R Nat := fun off => match lookup2 tabs off with | some t => .ok t | none => .error .elfParseError
+  return {
+    skel := F
+    ctor := fun cu o tbl =>
+      match us.find? (·.off == cu) with
+      | some u =>
+        match u.dies.find? (·.offset == o) with
+        | some d =>
+          if d.isNull then .ok d
+          else
+            match tbl with
+            | .error e => .error e
+            -- the rows were read with the unit's own table; any other table is outside what the harness can tabulate
+            | .ok t => if lookup2 tabs (abOff cu) == some t then .ok d else .error .assertion
+        | none => .error .elfParseError
+      | none => .error .elfParseError
+    abbrevOff := abOff
+    abbrevSize := abSize
+    parseAbbrev := parseAb
+    lpKey := fun cu => (lookup2 keys cu).getD 0
+    lpParse := fun k o =>
+      match lpP.find? (fun r => r.take 2 == [(k : Int), (o : Int)]) with
+      | some [_, _, h] => .ok h.toNat
+      | _ => .error .elfParseError
+    lpDecode := fun k o =>
+      match lpD.find? (fun r => r.take 2 == [(k : Int), (o : Int)]) with
+      | some [_, _, e, h] => .ok (e.toNat, h.toNat)
+      | _ => .error .elfParseError
+    cfiSize := fun eh => if eh then ce.size else cd.size
+    cfiHead := fun eh off => cfiHeadOf (if eh then ce else cd) off
+    cfiFde := fun eh off t1 t2 => cfiFdeOf (if eh then ce else cd) off t1 t2 }
+
+def parseXOp (j : Json) : Except String XOp := do
+  match j with
+  | .arr #[.str "abbrev_cu", c] => return .abbrevCU (← jNatOf c)
+  | .arr #[.str "abbrev_at", o] => return .abbrevAt (← jNatOf o)
+  | .arr #[.str "lp", c] => return .lp (← jNatOf c) true
+  | .arr #[.str "lp_hdr", c] => return .lp (← jNatOf c) false
+  | .arr #[.str "cfi"] => return .cfi false
+  | .arr #[.str "ehcfi"] => return .cfi true
+  | .arr #[.str "cfi_obj"] => return .cfiObj false
+  | .arr #[.str "ehcfi_obj"] => return .cfiObj true
+  | _ => return .base (← parseOp j)
+
+def centJson : CEnt → Json
+  | .zero o => Json.arr #[Json.str "Z", jN o]
+  | .cie o _ p => Json.arr #[Json.str "C", jI o, jN p]
+  | .fde o _ p c => Json.arr #[Json.str "F", jI o, jN p,
+      match c with | .zero o => jN o | .cie o _ _ => jI o | .fde o _ _ _ => jI o]
+
+def xansJson : XAns → Json
+  | .base a => ansJson a
+  | .tbl t => jN t
+  | .none => Json.null
+  | .lp o h e => Json.arr #[jN o, jN h, match e with | some e => jN e | none => Json.null]
+  | .cfi l => Json.arr (l.map centJson).toArray
+
+def insertNat (x : Nat) : List Nat → List Nat
+  | [] => [x]
+  | y :: ys => if x ≤ y then x :: y :: ys else y :: insertNat x ys
+
+def insertInt (x : Int) : List Int → List Int
+  | [] => [x]
+  | y :: ys => if x ≤ y then x :: y :: ys else y :: insertInt x ys
+
+def cfiObjJson (o : CfiObj) : Json :=
+  Json.arr #[Json.bool o.entries.isSome, Json.arr (((o.cache.map (·.1)).foldr insertInt []).map jI).toArray]
+
+def xstateJson (xs : XState) : Json :=
+  (stateJson xs.base).mergeObj (Json.mkObj [
+    ("line", Json.arr (((xs.lines.map fun (k, o) => (k, o.entries.isSome)).foldr insertSorted []).map
+      fun (k, b) => Json.arr #[jN k, Json.bool b]).toArray),
+    ("abbrev", Json.arr (((xs.ab.cache.map (·.1)).foldr insertNat []).map jN).toArray),
+    ("memo", Json.arr (((xs.ab.memo.map (·.1)).foldr insertNat []).map jN).toArray),
+    ("cfiobj", Json.arr #[cfiObjJson xs.cfiD, cfiObjJson xs.cfiE])])
+
 def handle (req : Json) : Except String Json := do
   let kind ← jStr req "k"
   if kind != "hist" then .error s!"C10: unknown kind {kind}"
   let size ← jNat req "size"
   let us ← (← jArr req "units").mapM parseUnit
   let F := mkFile size us (strList req "secs") (strList req "syms") (← parsePub req)
-  let ops ← (← jArr req "ops").mapM parseOp
+  let X ← mkXFile F us ((req.getObjVal? "x").toOption.getD (Json.mkObj []))
+  let ops ← (← jArr req "ops").mapM parseXOp
   let pos0 := (jNat req "pos0").toOption.getD 0
-  let mut st := { State.init with pos := pos0 }
+  let mut st := { XState.init with base := { State.init with pos := pos0 } }
   let mut out : Array Json := #[]
   for op in ops do
-    let r := step F st op
+    let r := xstep X st op
     st := r.2
-    out := out.push (Json.mkObj [("ans", resJson ansJson r.1), ("st", stateJson st)])
+    out := out.push (Json.mkObj [("ans", resJson xansJson r.1), ("st", xstateJson st)])
   return Json.mkObj [("steps", Json.arr out)]
 
 end PyElf.Driver.C10
